@@ -359,6 +359,8 @@ def layout_file(rng, ext, size):
 
 def run_copier_case(p, ranges, decide):
     io = D.FakeIO()
+    io.src_close_fail = p.get('src_close_fail')
+    io.dst_close_fail = p.get('dst_close_fail')
     steps, res, stuck = sshutil.run(D.drive(io, D.copier_op(io, p['bs'], p['mx'], p['total'], p['sparse'], ranges), decide))
     return io, steps, res, stuck
 
